@@ -860,6 +860,22 @@ pub fn footer_sweep(seed: u64, idx: u64) -> (u64, u64) {
                     panicked += 1;
                 }
             }
+            for n_ff in [6usize, 8] {
+                watch::tick();
+                let start = len - 48 + p;
+                let mut image = base.image.clone();
+                image.mutate(path, |b| {
+                    b[start..start + n_ff].iter_mut().for_each(|x| *x = 0xff);
+                    b[start + n_ff] = 0x7f;
+                });
+                let ctx = json!({"file": path.display().to_string(), "footer_position": p, "varint_of_ff_bytes": n_ff});
+                images += 1;
+                watch::emit(&json!({"t": "at", "image": format!("footer of {} position {p}: varint of {n_ff} x 0xff + 0x7f", path.display())}));
+                let r = catch_unwind(AssertUnwindSafe(|| judge_image(&mut scratch, &base, &image, path, PathClass::Table, "footer", &ctx, &mut rng)));
+                if r.is_err() {
+                    panicked += 1;
+                }
+            }
         }
     }
     (images, panicked)
@@ -948,6 +964,15 @@ pub fn run_case(tier: &str, seed: u64, idx: u64) -> CaseOut {
                     let start = len - 48 + p;
                     let run = 10 + (p % 3) * 9; // 10, 19 or 28 bytes: always short of the magic number
                     mutations.push((start, format!("{name} run of {run}"), Box::new(move |b: &mut Vec<u8>| b[start..start + run].iter_mut().for_each(|x| *x = fill))));
+                }
+                // a varint that does terminate - at an absurd value (2^49 and 2^63): a handle that
+                // names a block of petabytes
+                for (n_ff, name) in [(6usize, "varint 2^49"), (8usize, "varint 2^63")] {
+                    let start = len - 48 + p;
+                    mutations.push((start, format!("{name} run of {}", n_ff + 1), Box::new(move |b: &mut Vec<u8>| {
+                        b[start..start + n_ff].iter_mut().for_each(|x| *x = 0xff);
+                        b[start + n_ff] = 0x7f;
+                    })));
                 }
             }
         }
